@@ -1335,7 +1335,9 @@ class DoDoer(Doer):
             if not dog:  # Marker detected so this run through once has completed
                 break  # break loop at marker signifies once through
 
-            if retyme <= tyme:  # run it now
+            if retyme is None or retyme <= tyme:  # run it now, None means asap
+                if retyme is None:  # asap deed is due as of this recur
+                    retyme = tyme
                 try:  # send tyme. yield tock, tock may change during sended run
                     tock = dog.send(tyme)  # yielded tock == 0.0 means re-run asap
                 except StopIteration as ex:  # returned instead of yielded
@@ -1346,7 +1348,10 @@ class DoDoer(Doer):
                         doer.__func__.done = ex.value if ex.value is not None else doer.done
                 else:  # reappend for next pass
                     if not tock:  # tock is None or tock == 0.0 with empty yield tock == None
-                        retyme = tyme + self.tock  # rerun at next recur
+                        # rerun at next recur. When own .tock is 0.0 tyme of next
+                        # recur is up to the scheduler of this DoDoer so leave
+                        # retyme open else later tocks accumulate from a stale retyme
+                        retyme = tyme + self.tock if self.tock else None
                     else:
                         retyme += tock  # cumulative retyme of doer tock
                     deeds.append((dog, retyme, doer))  # reappend for next run through
